@@ -194,19 +194,23 @@ Proof. rewrite <- G_0. apply G_mono_le. lia. Qed.
 
 (** anomaly lists: snoc view, weakening *)
 Lemma value_snoc l a : value (l ++ [a]) = value l + a_val pc pp a.
-Proof. unfold CapaSpec.value. rewrite map_app, sumZ_app. cbn. lia. Qed.
+Proof using. clear Hm1. unfold CapaSpec.value. rewrite map_app, sumZ_app. cbn. lia. Qed.
 
 Lemma valid_from_snoc lo l a T :
   valid_from lo (l ++ [a]) T <->
   valid_from lo l (a_start a) /\ a_ok m M a /\ (a_end a <= T)%nat.
-Proof.
-  revert lo; induction l as [|b l IH]; intros lo; cbn; [tauto|]. rewrite IH. tauto.
+Proof using.
+  revert lo; induction l as [|b l IH]; intros lo; cbn [app CapaSpec.valid_from].
+  - reflexivity.
+  - rewrite IH. split.
+    + intros (H1 & H2 & H3 & H4 & H5). repeat split; assumption.
+    + intros ((H1 & H2 & H3) & H4 & H5). repeat split; assumption.
 Qed.
 
 Lemma valid_from_weaken lo l T T' :
   valid_from lo l T -> (T <= T')%nat -> valid_from lo l T'.
-Proof.
-  revert lo; induction l as [|b l IH]; intros lo; cbn; [lia|].
+Proof using.
+  clear Hm1. revert lo; induction l as [|b l IH]; intros lo; cbn; [lia|].
   intros (H1 & H2 & H3) HT. repeat split; auto.
 Qed.
 
@@ -693,10 +697,318 @@ Proof.
   apply (opt_nonneg n _ (run_WInv n)). lia.
 Qed.
 
+(** ---------------------------------------------------------------------- *)
+(** ** Optimality of the pruned programme                                    *)
+(** ---------------------------------------------------------------------- *)
+Hypothesis Hd : (m <= delay + 1)%nat.
+Hypothesis Hsub : forall s k e, (s + m <= k)%nat -> (k + m <= e)%nat -> (e <= s + M)%nat ->
+  PC s e <= PC s k + K + PC k e.
+
+Lemma Hm1' : (1 <= m)%nat.
+Proof using Hm2. clear - Hm2. lia. Qed.
+
+(** start [a] was found too low at end [tau] *)
+Definition condemned (a tau : nat) : Prop :=
+  (a + m <= tau)%nat /\ GG a + PC a tau + K < GG tau.
+
+(** a condemned start is strictly beaten at every later end it is still admissible for,
+    provided the end is at least m beyond the condemning end *)
+Lemma condemned_worse a tau T' :
+  condemned a tau -> (tau + m <= T')%nat -> (T' <= a + M)%nat -> GG a + PC a T' < GG T'.
+Proof.
+  intros [H1 H2] H3 H4.
+  pose proof (Hsub a tau T' H1 H3 H4) as Hs.
+  assert (H5 : (T' <= tau + M)%nat) by lia.
+  pose proof (G_step_coll PC PP m M Hm1' tau T' H3 H5) as Hg.
+  lia.
+Qed.
+
+Record OInv (T : nat) (s : st) : Prop := {
+  o_opt : forall i, (i <= T)%nat -> nthZ (opt s) i = GG i;
+  o_missing : forall a, (a + m <= T)%nat -> (S T <= a + M)%nat -> ~ In a (starts s) ->
+      exists tau, condemned a tau /\ (tau + m <= S T)%nat;
+  o_pend_len : (length (pending s) <= delay)%nat;
+  o_pend : forall i D, nth_error (pending s) i = Some D ->
+      forall a, In a D -> condemned a (T + 1 + i - length (pending s))%nat }.
+
+Lemma popped_spec s lw now pend' : popped s lw = (now, pend') ->
+  (delay < length (pending s ++ [lw]) /\ now = hd [] (pending s ++ [lw]) /\
+     pend' = tl (pending s ++ [lw]))%nat \/
+  (length (pending s ++ [lw]) <= delay /\ now = [] /\ pend' = pending s ++ [lw])%nat.
+Proof using.
+  unfold popped. cbv zeta. destruct (delay <? length (pending s ++ [lw]))%nat eqn:E.
+  - apply Nat.ltb_lt in E. intros H. inversion H; subst. left. auto.
+  - apply Nat.ltb_ge in E. intros H. inversion H; subst. right. auto.
+Qed.
+
+Lemma init_OInv : OInv 0 init.
+Proof.
+  constructor; cbn [opt astart starts pending init].
+  - intros i Hi. replace i with 0%nat by lia. reflexivity.
+  - intros a H. lia.
+  - cbn. lia.
+  - intros i D H. destruct i; discriminate.
+Qed.
+
+Lemma step_OInv t s : WInv t s -> OInv t s -> OInv (S t) (stepM s t).
+Proof.
+  intros W O. pose proof W as [Hlo Hla H0 Hmono Has Hst].
+  pose proof O as [Hopt Hmiss Hplen Hpend].
+  rewrite step_eq. destruct (choose s t) as [choice best] eqn:Ech.
+  apply choose_spec in Ech as (Hb1 & Hb2 & Hb3 & Hch).
+  assert (Hcand : forall a, In a (starts1 s t) ->
+            nthZ (opt s) a + PC a (S t) = GG a + PC a (S t)).
+  { intros a Ha. destruct (starts1_range t s W a Ha). rewrite Hopt by lia. reflexivity. }
+  (* admissible starts absent from the list were condemned long enough ago *)
+  assert (Hmiss0 : forall a, (a + m <= S t)%nat -> (S t <= a + M)%nat ->
+            ~ In a (starts1 s t) -> exists tau, condemned a tau /\ (tau + m <= S t)%nat).
+  { intros a A1 A2 Hn.
+    assert (Hne : a <> (S t - m)%nat).
+    { intros ->. apply Hn. unfold starts1.
+      replace (m <=? S t)%nat with true by (symmetry; apply Nat.leb_le; lia).
+      apply in_or_app; right; now left. }
+    assert (Hn' : ~ In a (starts s)) by (intros Hin; apply Hn; now apply starts_sub_starts1).
+    apply Hmiss; [lia|lia|exact Hn']. }
+  assert (Hmiss1 : forall a, (a + m <= S t)%nat -> (S t <= a + M)%nat ->
+            ~ In a (starts1 s t) -> GG a + PC a (S t) < GG (S t)).
+  { intros a A1 A2 Hn. destruct (Hmiss0 a A1 A2 Hn) as (tau & Hc & Htau).
+    now apply (condemned_worse a tau). }
+  (* the pruned maximum is the unpruned one *)
+  assert (Hbest : best = GG (S t)).
+  { apply Z.le_antisymm.
+    - destruct choice as [a|].
+      + destruct Hch as [[-> ->]|(i0 & Hi0 & Ea & ->)].
+        * rewrite Hopt by lia. apply (G_step_pt PC PP m M Hm1').
+        * assert (Hin : In a (starts1 s t)) by (subst a; now apply nth_In).
+          rewrite (cands_nth t s i0 W Hi0), <- Ea, Hcand by exact Hin.
+          destruct (starts1_range t s W a Hin) as [R1 R2].
+          now apply (G_step_coll PC PP m M Hm1').
+      + rewrite Hch, Hopt by lia. apply (G_step_id PC PP m M Hm1').
+    - destruct (G_attained_step PC PP m M Hm1' t) as [E|[E|(a & A1 & A2 & E)]].
+      + rewrite E, <- Hopt by lia. exact Hb1.
+      + rewrite E, <- Hopt by lia. exact Hb2.
+      + destruct (in_dec Nat.eq_dec a (starts1 s t)) as [Hin|Hn].
+        * rewrite E, <- Hcand by exact Hin. apply Hb3. unfold cands.
+          apply (in_map (fun a => nthZ (opt s) a + PC a (S t))). exact Hin.
+        * pose proof (Hmiss1 a A1 A2 Hn). lia. }
+  (* starts recorded as too low at this end are condemned at S t *)
+  assert (Hlow : forall a, In a (low s t best) -> condemned a (S t)).
+  { intros a Ha. unfold low in Ha. apply in_map_iff in Ha as ([a' c0] & Ea & Hin).
+    cbn [fst] in Ea. subst a'. apply filter_In in Hin as [Hin Hc].
+    unfold cands in Hin. apply in_combine_map in Hin as [Hin ->]. cbn [snd] in Hc.
+    apply Z.ltb_lt in Hc. destruct (starts1_range t s W a Hin) as [R1 R2].
+    split; [lia|]. rewrite Hcand in Hc by exact Hin. rewrite <- Hbest. exact Hc. }
+  set (lw := low s t best) in *.
+  destruct (popped s lw) as [now pend'] eqn:Epop.
+  apply popped_spec in Epop.
+  set (pend := pending s ++ [lw]) in *.
+  assert (Hlen : length pend = S (length (pending s)))
+    by (unfold pend; rewrite app_length; cbn; lia).
+  assert (Hpend1 : forall i D, nth_error pend i = Some D ->
+            forall a, In a D -> condemned a (S t + 1 + i - length pend)%nat).
+  { intros i D Hi a Ha. rewrite Hlen.
+    destruct (lt_dec i (length (pending s))) as [Hlt|Hge].
+    - unfold pend in Hi. rewrite nth_error_app1 in Hi by exact Hlt.
+      specialize (Hpend i D Hi a Ha).
+      replace (S t + 1 + i - S (length (pending s)))%nat
+        with (t + 1 + i - length (pending s))%nat by lia. exact Hpend.
+    - unfold pend in Hi. rewrite nth_error_app2 in Hi by lia.
+      destruct (i - length (pending s))%nat as [|j] eqn:Ej; cbn in Hi;
+        [|destruct j; discriminate].
+      inversion Hi; subst D.
+      replace (S t + 1 + i - S (length (pending s)))%nat with (S t) by lia.
+      now apply Hlow. }
+  assert (Hopt' : forall i, (i <= S t)%nat -> nthZ (opt s ++ [best]) i = GG i).
+  { intros i Hi. destruct (Nat.eq_dec i (S t)) as [->|Hne].
+    - rewrite app_nthZ_last by exact Hlo. exact Hbest.
+    - rewrite app_nthZ_lt by lia. apply Hopt. lia. }
+  destruct Epop as [(Hcmp & -> & ->)|(Hcmp & -> & ->)].
+  - (* the oldest pending decision is applied *)
+    assert (Hk : length (pending s) = delay) by lia.
+    destruct pend as [|D0 ptl] eqn:Ep; [cbn in Hlen; lia|]. cbn [hd tl].
+    assert (HD0 : forall a, In a D0 -> condemned a (S t - delay)%nat).
+    { intros a Ha. specialize (Hpend1 0%nat D0 eq_refl a Ha).
+      replace (S t + 1 + 0 - length (D0 :: ptl))%nat with (S t - delay)%nat in Hpend1
+        by (rewrite Hlen; lia). exact Hpend1. }
+    constructor; cbn [opt astart starts pending].
+    + exact Hopt'.
+    + intros a A1 A2 Hn.
+      destruct (in_dec Nat.eq_dec a (starts1 s t)) as [Hin|Hnin].
+      * assert (Hnow : In a D0).
+        { destruct (in_dec Nat.eq_dec a D0) as [i|ni]; [exact i|]. exfalso. apply Hn.
+          unfold keep. apply filter_In. split; [exact Hin|]. apply andb_true_iff. split.
+          - apply negb_true_iff. destruct (memb a D0) eqn:Em; [|reflexivity].
+            apply in_memb in Em. contradiction.
+          - apply negb_true_iff, Nat.ltb_ge. lia. }
+        exists (S t - delay)%nat. split; [now apply HD0|].
+        destruct (HD0 a Hnow) as [Hm' _]. lia.
+      * destruct (Hmiss0 a A1 ltac:(lia) Hnin) as (tau & Hc & Htau).
+        exists tau. split; [exact Hc|lia].
+    + cbn [length] in Hlen. lia.
+    + intros i D Hi a Ha. specialize (Hpend1 (S i) D Hi a Ha).
+      replace (S t + 1 + i - length ptl)%nat
+        with (S t + 1 + S i - length (D0 :: ptl))%nat by (cbn [length]; lia).
+      exact Hpend1.
+  - (* nothing is applied yet *)
+    constructor; cbn [opt astart starts pending].
+    + exact Hopt'.
+    + intros a A1 A2 Hn.
+      assert (Hnin : ~ In a (starts1 s t)).
+      { intros Hin. apply Hn. unfold keep. apply filter_In. split; [exact Hin|].
+        apply andb_true_iff. split; [reflexivity|]. apply negb_true_iff, Nat.ltb_ge. lia. }
+      destruct (Hmiss0 a A1 ltac:(lia) Hnin) as (tau & Hc & Htau).
+      exists tau. split; [exact Hc|lia].
+    + exact Hcmp.
+    + exact Hpend1.
+Qed.
+
+Lemma run_OInv n : OInv n (runM n).
+Proof.
+  induction n as [|n IH]; [exact init_OInv|]. rewrite run_S.
+  apply step_OInv; [apply run_WInv|exact IH].
+Qed.
+
+(** (O1) *)
+Theorem capa_scores_optimal n scores c p : capaM n = (scores, c, p) ->
+  forall t, (t < n)%nat -> nthZ scores t = GG (S t).
+Proof.
+  intros Hc t Ht. rewrite (scores_nth n scores c p) by exact Hc.
+  apply (o_opt _ _ (run_OInv n)). lia.
+Qed.
+
+(** (O2) *)
+Theorem capa_optimal n scores c p : capaM n = (scores, c, p) ->
+  forall l, ValidM l n -> valueM l <= valueM (map to_anom (capa_predict false c p)).
+Proof.
+  intros Hc l Hl. rewrite (capa_value_is_final_score n scores c p Hc).
+  pose proof (capa_eq _ _ _ _ Hc) as [-> _].
+  rewrite <- (opt_cons n _ (run_WInv n)).
+  rewrite (o_opt _ _ (run_OInv n)) by lia.
+  now apply (G_upper PC PP m M Hm1').
+Qed.
+
+(** the predicted anomaly set attains the optimum G n *)
+Corollary capa_value_optimal n scores c p : capaM n = (scores, c, p) ->
+  valueM (map to_anom (capa_predict false c p)) = GG n.
+Proof.
+  intros Hc. apply Z.le_antisymm.
+  - apply (G_upper PC PP m M Hm1'). now apply (capa_wellformed n scores c p).
+  - destruct (G_attained PC PP m M Hm1' n) as (l & V & <-).
+    now apply (capa_optimal n scores c p).
+Qed.
+
 End Model.
+
+(** the repaired code uses delay = m - 1 *)
+Corollary capa_scores_optimal_min_delay Sc Sp ac bc ap bp m M :
+  (2 <= m)%nat -> (m <= M)%nat ->
+  (forall s k e, (s + m <= k)%nat -> (k + m <= e)%nat -> (e <= s + M)%nat ->
+     Pc Sc ac bc s e <= Pc Sc ac bc s k + (ac + sumZ bc) + Pc Sc ac bc k e) ->
+  forall n scores c p, capa Sc Sp ac bc ap bp m M (m - 1) n = (scores, c, p) ->
+  forall t, (t < n)%nat -> nthZ scores t = G (Pc Sc ac bc) (Pp Sp ap bp) m M (S t).
+Proof.
+  intros H2 HM Hs. apply capa_scores_optimal; [exact H2|exact HM|lia|exact Hs].
+Qed.
+
+(** ====================================================================== *)
+(** * (R1) immediate pruning (delay = 0) is not optimal                       *)
+(** ====================================================================== *)
+
+(** savings from a loss table: loss[i][theta], theta in 0..Q;
+    saving of [s,e) = (sum of loss[.][0]) - min_theta (sum of loss[.][theta]).
+    Rows beyond the table count as 0.  Sub-additive for every split. *)
+Section LossSavings.
+Variable loss : list (list Z).
+Variable Q : nat.
+
+Definition lossat (th i : nat) : Z := nth th (nth i loss []) 0.
+Definition segsum (th s e : nat) : Z := sumZ (map (lossat th) (seq s (e - s))).
+Fixpoint minover (f : nat -> Z) (q : nat) : Z :=
+  match q with O => f 0%nat | S q' => Z.min (f (S q')) (minover f q') end.
+Definition lsav (s e : nat) : Z := segsum 0 s e - minover (fun th => segsum th s e) Q.
+
+Lemma segsum_split th s k e : (s <= k)%nat -> (k <= e)%nat ->
+  segsum th s e = segsum th s k + segsum th k e.
+Proof.
+  intros H1 H2. unfold segsum.
+  replace (e - s)%nat with ((k - s) + (e - k))%nat by lia.
+  rewrite seq_app, map_app, sumZ_app.
+  replace (s + (k - s))%nat with k by lia. reflexivity.
+Qed.
+
+Lemma minover_superadd f g q :
+  minover f q + minover g q <= minover (fun th => f th + g th) q.
+Proof. induction q as [|q IH]; cbn [minover]; lia. Qed.
+
+Lemma minover_ext f g q : (forall th, f th = g th) -> minover f q = minover g q.
+Proof. intros H. induction q as [|q IH]; cbn [minover]; [apply H|]. now rewrite H, IH. Qed.
+
+Lemma lsav_subadd s k e : (s <= k)%nat -> (k <= e)%nat -> lsav s e <= lsav s k + lsav k e.
+Proof.
+  intros H1 H2. unfold lsav. rewrite (segsum_split 0 s k e H1 H2).
+  rewrite (minover_ext (fun th => segsum th s e)
+                       (fun th => segsum th s k + segsum th k e))
+    by (intros th; now apply segsum_split).
+  pose proof (minover_superadd (fun th => segsum th s k) (fun th => segsum th k e) Q) as Hs.
+  cbv beta in Hs. lia.
+Qed.
+End LossSavings.
+
+Lemma penalise_single x a : penalise [x] a [0] = x - a.
+Proof. unfold penalise. cbn. lia. Qed.
+
+(** witness: one column, two parameter values, n = 4, m = 2, M = 4,
+    collective penalty 1, point penalty 4.  Start 0 is found too low at end 3
+    (0 + 1 < 2) and dropped at once, but [0,4) is the unique optimum at end 4 = 3 + 1 < 3 + m:
+    pruned scores [0;2;2;2], optimum G = 0,2,2,3. *)
+Definition wloss : list (list Z) := [[3;0];[1;1];[0;2];[3;0]].
+Definition wSc (s e : nat) : list Z := [lsav wloss 1 s e].
+Definition wSp (t : nat) : list Z := [lsav wloss 1 t (S t)].
+
+Theorem capa_immediate_pruning_refuted :
+  exists Sc Sp ac bc ap bp m M n,
+    (2 <= m <= M)%nat /\
+    (forall s k e, (s + m <= k)%nat -> (k + m <= e)%nat -> (e <= s + M)%nat ->
+       Pc Sc ac bc s e <= Pc Sc ac bc s k + (ac + sumZ bc) + Pc Sc ac bc k e) /\
+    exists t scores c p,
+      (t < n)%nat /\ capa Sc Sp ac bc ap bp m M 0 n = (scores, c, p) /\
+      nthZ scores t <> G (Pc Sc ac bc) (Pp Sp ap bp) m M (S t).
+Proof.
+  exists wSc, wSp, 1, [0], 4, [0], 2%nat, 4%nat, 4%nat.
+  split; [lia|]. split.
+  - intros s k e H1 H2 H3. unfold Pc, wSc. rewrite !penalise_single. cbn [sumZ].
+    pose proof (lsav_subadd wloss 1 s k e ltac:(lia) ltac:(lia)). lia.
+  - exists 3%nat. eexists. eexists. eexists.
+    split; [lia|]. split; [vm_compute; reflexivity|].
+    vm_compute. discriminate.
+Qed.
+
+(** the numbers: immediate pruning returns 2 at the last index, delay m - 1 = 1 returns
+    the optimum 3 *)
+Example witness_scores_delay0 :
+  fst (fst (capa wSc wSp 1 [0] 4 [0] 2 4 0 4)) = [0; 2; 2; 2].
+Proof. vm_compute. reflexivity. Qed.
+Example witness_scores_delay1 :
+  fst (fst (capa wSc wSp 1 [0] 4 [0] 2 4 1 4)) = [0; 2; 2; 3].
+Proof. vm_compute. reflexivity. Qed.
+Example witness_G :
+  map (G (Pc wSc 1 [0]) (Pp wSp 4 [0]) 2 4) [1; 2; 3; 4]%nat = [0; 2; 2; 3].
+Proof. vm_compute. reflexivity. Qed.
+
+(** the same sub-additivity holds for every split of every interval, not only the
+    ones the optimality theorem asks for *)
+Lemma witness_subadditive_everywhere s k e : (s <= k)%nat -> (k <= e)%nat ->
+  Pc wSc 1 [0] s e <= Pc wSc 1 [0] s k + (1 + sumZ [0]) + Pc wSc 1 [0] k e.
+Proof.
+  intros H1 H2. unfold Pc, wSc. rewrite !penalise_single. cbn [sumZ].
+  pose proof (lsav_subadd wloss 1 s k e H1 H2). lia.
+Qed.
 
 Print Assumptions G_upper.
 Print Assumptions G_attained.
 Print Assumptions capa_wellformed.
 Print Assumptions capa_value_is_final_score.
 Print Assumptions capa_ignore_points.
+Print Assumptions capa_scores_optimal.
+Print Assumptions capa_optimal.
+Print Assumptions capa_immediate_pruning_refuted.
